@@ -14,7 +14,7 @@ SUITE=$(go test -vet=off -count=1 ./... 2>&1 | grep -c '^FAIL')
 cp $SRC/demo_test.go $DEST
 PKG=./$(dirname $DEST)/
 WITH=$(go test -vet=off -count=1 $PKG 2>&1 | grep -c -- '^--- FAIL')
-git checkout -q -- . 
+git checkout -q -- . ; git clean -fdq; cp $SRC/demo_test.go $DEST   # (a patch may add new files: remove them too)
 WITHOUT=$(go test -vet=off -count=1 $PKG 2>&1 | grep -c -- '^--- FAIL\|^FAIL')
 rm -f $DEST; git clean -fdq
 OK=no; [ "$SUITE" = 0 ] && [ "$WITH" -gt 0 ] && [ "$WITHOUT" = 0 ] && OK=yes
